@@ -25,16 +25,35 @@ CONFIGS = {
                           cfg("glob-t3c3", 3, 3, ("glob",), variants=("node/", "mixin::"))],
 }
 
+def big(name, queries, lo, hi, instances, per, variants=("node/", "anyid", "mixin::")):
+    c = cfg(name, 3, 2, queries, schemes=(1,), variants=variants)
+    c["big"] = dict(BigMin=lo, BigMax=hi, Instances=instances, PerShape=per)
+    return c
+
+
+CONFIGS[("C07", "quick")] += [big("big-get-60", ("get",), 10, 60, 48, 40), big("big-get-300", ("get",), 100, 300, 6, 30, variants=("node/",))]
+CONFIGS[("C08", "quick")] += [big("big-glob-60", ("glob",), 10, 60, 48, 40), big("big-glob-150", ("glob",), 80, 150, 6, 20, variants=("node/",))]
+CONFIGS[("C07", "thorough")] += [big("big-get-80", ("get",), 10, 80, 400, 60), big("big-get-400", ("get",), 100, 400, 24, 40, variants=("node/",))]
+CONFIGS[("C08", "thorough")] += [big("big-glob-80", ("glob",), 10, 80, 400, 60), big("big-glob-200", ("glob",), 80, 200, 24, 30, variants=("node/",))]
+
 CHECKS = dict(invariants=("Lem_Get", "Lem_Match"), properties=("Thm_Get", "Thm_Glob"))
 
 
 def tlc_cfg(c):
+    if c.get("big"):
+        consts = {"Nil": 0, "MaxN": c["MaxN"], "MaxComps": c["MaxComps"], "Queries": set(c["queries"]), "SchemeIds": set(c["schemes"]), "Wild": c["Wild"]}
+        consts.update(c["big"])
+        return T.cfg_text(consts, init="BigInit", next_="BigNext", view="View", properties=("BigThm_Get", "BigThm_Glob"),
+                          action_constraints=("BigEmit",), deadlock=False)
     return T.cfg_text({"Nil": 0, "MaxN": c["MaxN"], "MaxComps": c["MaxComps"], "Queries": set(c["queries"]),
                        "SchemeIds": set(c["schemes"]), "Wild": c["Wild"]},
                       view="View", action_constraints=("Emit",), deadlock=False, **CHECKS)
 
 
 def run_model(c, coverage=False):
+    if c.get("big"):
+        return T.run_vectors("MC_ResolverBig", tlc_cfg(c), c["name"], lambda st: st["distinct"] * c["big"]["PerShape"], workers=1,
+                             extra=("-seed", str(13 + core.seed())))
     return T.run_vectors("MC_Resolver", tlc_cfg(c), c["name"], lambda st: st["generated"] - st["distinct"])
 
 
